@@ -100,6 +100,15 @@ class Ctx:
         return r != z3.unsat
 
     def decide(self, conds):
+        if self.dry:
+            # eager (dry-run) evaluation must behave the same when a path is discovered and when it is replayed:
+            # nothing is recorded, and anything that would really fork aborts the eager attempt
+            feas = [i for i, c in enumerate(conds) if self.feasible(c)]
+            if len(feas) != 1:
+                raise Impure()
+            if conds[feas[0]] is not True:
+                self.assume(conds[feas[0]])
+            return feas[0]
         idx = len(self.trace)
         if idx < len(self.prefix):
             k = self.prefix[idx]
@@ -107,8 +116,6 @@ class Ctx:
             feas = [i for i, c in enumerate(conds) if self.feasible(c)]
             if not feas:
                 raise PathEnd()
-            if self.dry and len(feas) > 1:
-                raise Impure()
             k = feas[0]
             for j in feas[1:]:
                 self.pending.append(self.trace + [j])
